@@ -14,6 +14,7 @@ func init() {
 	register("C16", "R1", 15, "writer/reader tables agree: every Action constant is produced by ParseHeader under the documented syntax test, has the documented effect in Apply and prints in String with the very prefix/suffix ParseHeader tests for", c16r1)
 	register("C16", "R2", 1, "a map-move (m[a]=m[b]; delete(m,b)) on a header map is guarded by a != b, so renaming a field to its own spelling cannot drop it", c16r2)
 	register("C16", "R3", 1, "while ranging over an http.Header the visited entry is deleted by its raw key (delete), never through Header.Del, which canonicalises the key and misses non-canonical names", c16r3)
+	register("C16", "R6", 1, "-prefix* ignores case on the stored key: the test that selects a field for removal compares the raw map key with the prefix case-insensitively (strings.EqualFold on the key's head, or both sides folded to one case) - a case-sensitive test misses names stored under a non-canonical key", c16r6)
 	register("C16", "R4", 2, "rule grammar: the value group of headerLineRegex cannot contain CR or LF and names are restricted to token characters, anchored at both ends", c16r4)
 	register("C16", "R5", 3, "dispatch by message kind: CONNECT requests get the connect rules, other requests the request rules, responses to CONNECT are skipped, the upstream CONNECT header gets the connect rules", c16r5)
 }
@@ -463,6 +464,29 @@ func c16r5(r *R) {
 	})
 	r.check(okReq && okRes, "configureHeadersModifiers#install", cfg.Pos(), "request closure → RequestModifiers, response closure → ResponseModifiers", "header-rule closures are not installed in the matching modifier lists")
 
+	// ... on every path on which the rule list they serve may be non-empty
+	cps, complete := enumPaths(cfg, 512, 1)
+	if !complete {
+		r.undecided("configureHeadersModifiers#install-when", cfg.Pos(), "too many paths")
+	} else {
+		knownEmpty := func(p Path, list string) bool {
+			l := "builtin len($0." + list + ")"
+			return p.holds("!("+l+" > 0)") || p.holds("("+l+" == 0)") || p.holds("("+l+" < 1)")
+		}
+		var why []string
+		for _, p := range cps {
+			instReq := p.eventIndex(0, "call", prefix("builtin append($0.httpProxyConfig.RequestModifiers, ")) >= 0
+			instRes := p.eventIndex(0, "call", prefix("builtin append($0.httpProxyConfig.ResponseModifiers, ")) >= 0
+			if !instReq && !(knownEmpty(p, "connectHeaders") && knownEmpty(p, "requestHeaders")) {
+				why = append(why, "the request/CONNECT rule modifier is not installed on ["+strings.Join(p.Conds, " ∧ ")+"], where connect or request rules may exist")
+			}
+			if !instRes && !knownEmpty(p, "responseHeaders") {
+				why = append(why, "the response rule modifier is not installed on ["+strings.Join(p.Conds, " ∧ ")+"], where response rules may exist")
+			}
+		}
+		r.check(len(why) == 0, "configureHeadersModifiers#install-when", cfg.Pos(), "a modifier is left out only when the lists it serves are empty", strings.Join(dedupStrings(why), "; "))
+	}
+
 	// upstream CONNECT header: connect rules applied in GetProxyConnectHeader
 	tp := r.method("command/run", "command", "configureTransportProxy")
 	found := false
@@ -479,4 +503,37 @@ func c16r5(r *R) {
 	}
 	r.check(found, "configureTransportProxy#connect-rules", tp.Pos(), "GetProxyConnectHeader applies c.connectHeaders", "connect header rules are not applied to the upstream CONNECT header")
 	_ = constant.MakeBool
+}
+
+func c16r6(r *R) {
+	fn := r.fn("header", "removeHeadersByPrefix")
+	n := 0
+	eachInstr(fn, func(ins ssa.Instruction) {
+		c, ok := ins.(*ssa.Call)
+		if !ok || calleeName(c.Common()) != "builtin delete" {
+			return
+		}
+		n++
+		key := describe(c.Common().Args[1])
+		var tests []string
+		good := false
+		for _, g := range guardStrings(c.Block()) {
+			if strings.HasPrefix(g, "!") || !strings.Contains(g, key) {
+				continue
+			}
+			switch {
+			case strings.HasPrefix(g, "strings.EqualFold("+key+"[0:builtin len($1)], $1)"), strings.HasPrefix(g, "strings.EqualFold("+key+"[:builtin len($1)], $1)"),
+				strings.HasPrefix(g, "strings.EqualFold($1, "+key+"["):
+				good = true
+			case g == "strings.HasPrefix(strings.ToLower("+key+"), strings.ToLower($1))", g == "strings.HasPrefix(strings.ToUpper("+key+"), strings.ToUpper($1))":
+				good = true
+			case strings.Contains(g, "HasPrefix(") || strings.Contains(g, "EqualFold(") || strings.Contains(g, " == "):
+				tests = append(tests, g)
+			}
+		}
+		r.check(good, "removeHeadersByPrefix#fold", c.Pos(), "the stored key is compared with the prefix without regard to case", "the field is selected by "+strings.Join(tests, " ∧ ")+", which is not a case-insensitive comparison of the stored key with the prefix")
+	})
+	if n == 0 {
+		r.bad("removeHeadersByPrefix#fold", fn.Pos(), "no field is deleted")
+	}
 }
